@@ -76,6 +76,7 @@ def main():
     chk.outside += fam_diff.OUTSIDE + F.OUTSIDE
     chk.stubs += F.STUBS
     chk.require_goals(["nonempty-diff", "conflict", "clean-two-sided"])
+    F.f16_witness(chk, known)
     return chk.finish()
 
 
